@@ -99,28 +99,10 @@ def rule_fiber(ctx, E_dm):
     fi, it = fiber_forms(ctx)
     w = w_form()
     W = w * Form.num(Fraction(1, 10 ** 12))
-    dop, dop_stmt, _dop_name = c08.find_dop(it)
-    if not isinstance(dop, Form):
-        ctx.unknown("C07.3", fi, fi.node, "FIBER D_op", "dispersion operator `D_op` not found")
+    got = c08.rule_dop(ctx, fi, it, "C07.3")
+    if got is None:
         return
-    # split D_op into loss / beta2 / beta3 parts
-    loss = Form({m: c for m, c in dop.terms.items() if any(a == ("sym", "alpha") for a, _ in m)})
-    b2 = Form({m: c for m, c in dop.terms.items() if any(a == ("sym", "beta_2") for a, _ in m)})
-    b3 = Form({m: c for m, c in dop.terms.items() if any(a == ("sym", "beta_3") for a, _ in m)})
-    rest = dop - loss - b2 - b3
-    want2 = Form.num(0, -1) / 2 * S("beta_2") * W * W
-    want3 = Form.num(0, -1) / 6 * S("beta_3") * W * W * W
-    ctx.check("C07.3", b2 == want2, fi, dop_stmt, f"D_op beta_2 term = {b2!r}", "-j/2*beta2*(w*1e-12)^2", f"differs from {want2!r}")
-    ctx.check("C07.3", b3 == want3, fi, dop_stmt, f"D_op beta_3 term = {b3!r}", "-j/6*beta3*(w*1e-12)^3", f"differs from {want3!r}")
-    ctx.check("C07.3", rest.is_zero(), fi, dop_stmt, f"D_op other terms = {rest!r}", "none", "dispersion operator has terms besides loss, beta2, beta3")
-    q = (loss / S("alpha")).rational()
-    if q is None or q == 0:
-        ctx.violation("C07.3", fi, dop_stmt, f"D_op loss term = {loss!r}", "loss term is not a real constant times alpha")
-    else:
-        k = -1 / (2 * q)   # loss = -alpha/(2k)
-        ok = abs(float(k) - 4.342944819) < 5e-3
-        ctx.check("C07.3", ok, fi, dop_stmt, f"D_op loss term = {loss!r}", f"-alpha/(2*{float(k):.4f}), 10/ln10 = 4.3429",
-                  f"loss term is -alpha/(2*{float(k):.5g}); the dB->neper constant must be 10/ln(10)=4.3429 (power law 10^(-alpha*L/10) broken)")
+    b2, dop_stmt = got
     # C07.4 DM == FIBER(beta2): E_dm with D := beta_2*h  equals  b2 * h
     h = S("h")
     lhs = E_dm.subst(lambda a: S("beta_2") * h if a == ("sym", "D") else None)
